@@ -842,6 +842,9 @@ func (e *Exec) deliver(bi, ti int, rec *blockRecord, h int64) {
 	} else if f.IsReplayOf {
 		e.res.Stats.C("tx_replays", 1)
 		spec = f.Spec // the facts (signer, fee, message) are those of the original
+	} else if f.IsMutCopy {
+		e.res.Stats.C("tx_mutated_copies", 1)
+		spec = f.Spec
 	}
 	rec.txs = append(rec.txs, f.Bytes)
 	var pred TxPrediction
